@@ -1,9 +1,12 @@
 //! C01 — only authorised, existing, unspent outputs are ever spent.
-//! A catalogue of adversarial edits of a valid transaction is offered (i) to the
-//! transaction pool and (ii) inside an otherwise consistent block (assembled the
-//! way an attacker with his own block builder would) to the real node; the
-//! verdict of the real `Transaction::validate` on the abstract transaction is
-//! compared with the Coq model `TxValid.tx_validate`, and the property itself
+//! A catalogue of adversarial edits of valid transactions (plain transfers,
+//! BlockStake transactions, NFT create/send transactions built with the real
+//! wallet functions) is offered (i) to the transaction pool and (ii) inside an
+//! otherwise consistent block (assembled the way an attacker with his own block
+//! builder would) to the real node, in plain and in staking worlds; the verdict
+//! of the real `Transaction::validate` on every generated transaction is
+//! compared with the Coq model `TxValid.tx_validate` (plus a randomised field
+//! mutation part that only feeds this comparison), and the property itself
 //! (SpendOK for every value input of every accepted user transaction) is the
 //! direct oracle.
 use std::collections::BTreeSet;
@@ -12,108 +15,432 @@ use std::panic::AssertUnwindSafe;
 use saito_core::core::consensus::block::Block;
 use saito_core::core::consensus::slip::{Slip, SlipType};
 use saito_core::core::consensus::transaction::{Transaction, TransactionType};
+use saito_core::core::consensus::wallet::Wallet;
 use saito_core::core::defs::{SaitoPrivateKey, SaitoPublicKey};
-use saito_core::core::util::crypto::{hash, verify_signature};
+use saito_core::core::util::crypto::verify_signature;
 use verif_harness::chainsim::futures_catch;
 use verif_harness::common::{Args, Summary};
 use verif_harness::gal;
 use verif_harness::rng::Rng;
 use verif_harness::world::*;
 
-const EDITS: &[(&str, bool)] = &[
-    // (name, violates SpendOK / must be rejected)
-    ("baseline-valid", false),
-    ("signature-flipped", true),
-    ("signature-zero", true),
-    ("foreign-extra-input", true),
-    ("foreign-only-input", true),
-    ("nonexistent-input", true),
-    ("already-spent-input", true),
-    ("duplicate-input-in-tx", true),
-    ("same-input-in-two-txs", true),
-    ("outputs-exceed-inputs", true),
-    ("type-issuance", true),
-    ("type-spv-with-outputs", true),
-    ("type-fee-forged", true),
-    ("type-atr-forged", true),
-    ("output-sum-wraps-u64", true),
-    ("expired-input", true),
-    ("unsigned-other-key", true),
+#[derive(Clone, Copy, PartialEq, Debug)]
+enum Expect {
+    /// a legitimate transaction: must be accepted
+    Accept,
+    /// violates the property (or a rule the property relies on): must be rejected
+    Reject,
+    /// recorded only (behaviour outside the statement of C01)
+    Observe,
+}
+use Expect::*;
+
+#[derive(Clone, Copy, PartialEq, Debug)]
+enum Needs {
+    /// any world whose genesis outputs are still inside the window
+    Fresh,
+    /// only once the window has wrapped
+    Wrapped,
+    /// a world with NFTs on chain
+    Nft,
+    /// social staking required
+    Staking,
+    /// a world whose transfers paid fees, so that fee transactions with payouts are on chain
+    Payouts,
+}
+
+#[derive(Clone, Copy, PartialEq, Debug)]
+enum Venues {
+    Both,
+    BlockOnly,
+}
+
+struct Edit {
+    name: &'static str,
+    expect: Expect,
+    /// id of the listed finding an acceptance falls under (default: "<name>-<venue>")
+    known: Option<&'static str>,
+    needs: Needs,
+    venues: Venues,
+    /// the edited transaction takes the place of the block's staking transaction
+    /// (in staking worlds) instead of the carrier's
+    stake_slot: bool,
+}
+
+const fn ed(name: &'static str, expect: Expect, needs: Needs) -> Edit {
+    Edit { name, expect, known: None, needs, venues: Venues::Both, stake_slot: false }
+}
+const fn edk(name: &'static str, known: &'static str, needs: Needs) -> Edit {
+    Edit { name, expect: Reject, known: Some(known), needs, venues: Venues::Both, stake_slot: false }
+}
+const fn eds(name: &'static str, expect: Expect, needs: Needs) -> Edit {
+    Edit { name, expect, known: None, needs, venues: Venues::Both, stake_slot: true }
+}
+
+const EDITS: &[Edit] = &[
+    ed("baseline-valid", Accept, Needs::Fresh),
+    ed("signature-flipped", Reject, Needs::Fresh),
+    ed("signature-zero", Reject, Needs::Fresh),
+    ed("foreign-extra-input", Reject, Needs::Fresh),
+    ed("foreign-only-input", Reject, Needs::Fresh),
+    ed("nonexistent-input", Reject, Needs::Fresh),
+    ed("already-spent-input", Reject, Needs::Fresh),
+    ed("duplicate-input-in-tx", Reject, Needs::Fresh),
+    Edit { name: "same-input-in-two-txs", expect: Reject, known: None, needs: Needs::Fresh, venues: Venues::BlockOnly, stake_slot: false },
+    ed("outputs-exceed-inputs", Reject, Needs::Fresh),
+    ed("type-issuance", Reject, Needs::Fresh),
+    ed("type-spv-with-outputs", Reject, Needs::Fresh),
+    ed("type-fee-forged", Reject, Needs::Fresh),
+    ed("type-atr-forged", Reject, Needs::Fresh),
+    ed("output-sum-wraps-u64", Reject, Needs::Fresh),
+    ed("expired-input", Reject, Needs::Wrapped),
+    ed("unsigned-other-key", Reject, Needs::Fresh),
+    // foreign inputs that are not Normal slips: payouts of fee transactions, rebroadcast
+    // outputs, stakes (the ownership rule covers every slip type but Bound)
+    ed("foreign-extra-input-miner-output", Reject, Needs::Payouts),
+    ed("foreign-extra-input-router-output", Reject, Needs::Payouts),
+    ed("foreign-extra-input-atr", Reject, Needs::Wrapped),
+    ed("foreign-extra-input-block-stake", Reject, Needs::Staking),
+    ed("foreign-extra-input-block-stake-zero-first", Reject, Needs::Staking),
+    // the signature does not cover block_id / tx_ordinal of the inputs
+    edk("replayed-signature-other-output", "replayed-signature-other-output", Needs::Fresh),
+    // ---- BlockStake transactions
+    eds("stake-valid-wallet", Accept, Needs::Fresh),
+    eds("stake-valid-producer", Accept, Needs::Staking),
+    eds("stake-foreign-input", Reject, Needs::Fresh),
+    eds("stake-foreign-extra-input", Reject, Needs::Fresh),
+    eds("stake-signature-zero", Reject, Needs::Fresh),
+    eds("stake-no-inputs-mints", Reject, Needs::Fresh),
+    eds("stake-inflated-outputs", Reject, Needs::Fresh),
+    eds("stake-output-type-vip", Reject, Needs::Fresh),
+    eds("stake-below-requirement", Reject, Needs::Staking),
+    eds("stake-locked-input", Reject, Needs::Staking),
+    ed("stake-locked-spent-by-normal-tx", Observe, Needs::Staking),
+    // ---- Bound (NFT) transactions
+    ed("bound-create-valid", Accept, Needs::Nft),
+    ed("bound-send-valid", Accept, Needs::Nft),
+    ed("bound-owner-not-creator-sends", Observe, Needs::Nft),
+    edk("bound-creator-reclaims-deposit", "bound-creator-reclaims", Needs::Nft),
+    edk("bound-foreign-extra-input", "bound-foreign-input", Needs::Nft),
+    edk("bound-fabricated-triple", "bound-fabricated-triple", Needs::Fresh),
+    ed("bound-send-others-nft", Reject, Needs::Nft),
+    ed("bound-detached-triple", Reject, Needs::Nft),
+    ed("bound-send-amount-modified", Reject, Needs::Nft),
+    ed("bound-send-wrong-order", Reject, Needs::Nft),
+    ed("bound-send-uuid-modified", Reject, Needs::Nft),
+    ed("bound-send-forged-uuid-input", Observe, Needs::Nft),
+    ed("bound-send-deposit-inflated", Reject, Needs::Nft),
+    ed("bound-create-id-block-mismatch", Reject, Needs::Nft),
+    ed("bound-create-id-ordinal-mismatch", Reject, Needs::Nft),
+    ed("bound-create-id-index-mismatch", Reject, Needs::Nft),
+    ed("bound-create-foreign-input", Reject, Needs::Nft),
+    ed("bound-create-slip3-nonzero", Reject, Needs::Nft),
+    ed("bound-create-inflated", Reject, Needs::Nft),
+    ed("bound-create-extra-bound-output", Observe, Needs::Nft),
+    ed("bound-slip-in-normal-tx-output", Reject, Needs::Nft),
+    ed("bound-slip-in-normal-tx-input", Reject, Needs::Nft),
+    Edit { name: "bound-same-nft-twice-in-block", expect: Reject, known: Some("bound-double-spend-in-block"), needs: Needs::Nft, venues: Venues::BlockOnly, stake_slot: false },
 ];
 
+#[derive(Clone, Copy, Debug)]
+struct Plan {
+    gp: u64,
+    len: usize,
+    stake: u64,
+    nft: bool,
+    /// fee paid by the filler transfer of every block (0 in worlds that wrap)
+    fee: u64,
+}
+impl Plan {
+    fn wrapped(&self) -> bool {
+        (self.len as u64) + 1 > self.gp + 1
+    }
+}
+
+const STAKE: u64 = 600_000;
+const STAKE_PERIOD: u64 = 2;
+const EQ_AMOUNT: u64 = 3_000_000;
+
+/// the three slips of an NFT as they sit on chain
+#[derive(Clone)]
+struct Nft {
+    slips: [Slip; 3],
+}
+impl Nft {
+    fn id(&self) -> Vec<u8> {
+        self.slips[1].utxoset_key.to_vec()
+    }
+}
+
 struct World {
+    plan: Plan,
     node: Node,
     attacker: (SaitoPublicKey, SaitoPrivateKey),
     victim: (SaitoPublicKey, SaitoPrivateKey),
+    /// unspent outputs of the attacker: [0] is used by the carrier of attacker blocks
     attacker_slips: Vec<Slip>,
     victim_slips: Vec<Slip>,
     spent_slip: Slip,
     expired_slip: Option<Slip>,
     tip: Block,
+    /// wallets of attacker and victim fed with the chain
+    aw: Wallet,
+    vw: Wallet,
+    /// NFT created by the attacker for the victim (deposit 400k), by the attacker for
+    /// himself (deposit 300k), by the victim for himself (200k), by the attacker for
+    /// himself without deposit
+    nft_a2v: Option<Nft>,
+    nft_a2a: Option<Nft>,
+    nft_v2v: Option<Nft>,
+    nft_a0: Option<Nft>,
+    /// a payment of the victim to the attacker that is on chain, and an unspent
+    /// output of the victim equal (amount, slip index, type) to the one it spent
+    replay_src: Transaction,
+    replay_alt: Slip,
+    /// the victim's change output of that payment (slip index 1)
+    victim_change: Slip,
+    /// an output of the attacker with slip index 2 (third output of that payment)
+    attacker_idx2: Slip,
+    /// the producer's BlockStake output in the tip block (locked)
+    locked_stake: Option<Slip>,
+    /// unspent outputs of other keys than the attacker's, by slip type, found on chain:
+    /// payouts of fee transactions, rebroadcast outputs, stakes
+    foreign_miner_output: Option<Slip>,
+    foreign_router_output: Option<Slip>,
+    foreign_atr: Option<Slip>,
+    foreign_stake: Option<Slip>,
+    /// an unspent rebroadcast output of the attacker
+    own_atr: Option<Slip>,
 }
 
-async fn build_world(gp: u64, len: usize, rng: &mut Rng) -> World {
-    let params = Params { genesis_period: gp, ..Params::default() };
-    let mut node = Node::new(&params, 1);
+struct Built {
+    plan: Plan,
+    blocks: Vec<Block>,
+}
+
+async fn stake_tx_of_node(node: &Node) -> Option<Transaction> {
+    let mut w = node.wallet_lock.write().await;
+    w.create_staking_transaction(
+        node.blockchain.social_stake_requirement,
+        node.blockchain.get_latest_unlocked_stake_block_id(),
+        (node.blockchain.get_latest_block_id() + 1).saturating_sub(node.params.genesis_period),
+    )
+    .ok()
+}
+
+fn params_of(plan: &Plan) -> Params {
+    Params {
+        genesis_period: plan.gp,
+        social_stake: plan.stake,
+        social_stake_period: STAKE_PERIOD,
+        ..Params::default()
+    }
+}
+
+/// builds the chain of a world once (blocks are kept pristine and replayed into
+/// fresh nodes for every case)
+async fn build_blocks(plan: Plan, rng: &mut Rng) -> Built {
+    let mut node = Node::new(&params_of(&plan), 1);
     let attacker = keypair(2);
     let victim = keypair(3);
+    let filler = keypair(4);
     let mut issuance = vec![];
-    for k in 0..6u64 {
+    for k in 0..8u64 {
         issuance.push((attacker.0, 1_000_000 + k * 1000));
     }
     for k in 0..4u64 {
         issuance.push((victim.0, 2_000_000 + k * 1000));
     }
-    issuance.push((node.pk, 5_000_000));
+    issuance.push((victim.0, EQ_AMOUNT));
+    issuance.push((victim.0, EQ_AMOUNT));
+    issuance.push((filler.0, 777_000));
+    for k in 0..8u64 {
+        issuance.push((node.pk, 5_000_000 + k));
+    }
     let g = make_genesis(&node, 1_000_000, &issuance).await.unwrap();
     assert_eq!(node.add_block(g.clone()).await, AddClass::OnChain);
-    let mut attacker_slips: Vec<Slip> = (0..6).map(|k| g.transactions[k].to[0].clone()).collect();
-    let victim_slips: Vec<Slip> = (6..10).map(|k| g.transactions[k].to[0].clone()).collect();
-    // block 2: the attacker spends slip 0 (so it is "already spent" afterwards)
-    let spent_slip = attacker_slips.remove(0);
+    let mut blocks = vec![g.clone()];
+    let a_slips: Vec<Slip> = (0..8).map(|k| g.transactions[k].to[0].clone()).collect();
+    let v_slips: Vec<Slip> = (8..14).map(|k| g.transactions[k].to[0].clone()).collect();
+    let mut fill = g.transactions[14].to[0].clone();
+    let mut aw = Wallet::new(attacker.1, attacker.0);
+    let mut vw = Wallet::new(victim.1, victim.0);
+    aw.on_chain_reorganization(&g, true, plan.gp);
+    vw.on_chain_reorganization(&g, true, plan.gp);
     let mut parent = g.clone();
-    let mut expired_slip = None;
-    for i in 0..len {
+    for i in 0..plan.len {
         let ts = parent.timestamp + 120_000 + rng.below(1000);
         let mut txs = vec![];
+        // keep blocks non-empty: a spare key pays itself
+        let f = make_tx(&[fill.clone()], &[(filler.0, fill.amount - plan.fee)], &filler.1, ts);
+        let fsig = f.signature;
+        txs.push(f);
         if i == 0 {
-            txs.push(make_tx(&[spent_slip.clone()], &[(attacker.0, spent_slip.amount)], &attacker.1, ts));
-        } else {
-            // keep blocks non-empty: the node pays itself
-            let s = node_slip(&parent, &node.pk);
-            if let Some(s) = s {
-                txs.push(make_tx(&[s.clone()], &[(node.pk, s.amount)], &node.sk, ts));
+            // the attacker spends slip 0 (so it is "already spent" afterwards)
+            txs.push(make_tx(&[a_slips[0].clone()], &[(attacker.0, a_slips[0].amount)], &attacker.1, ts));
+            // the victim pays the attacker out of the first of two equal outputs
+            txs.push(make_tx(
+                &[v_slips[4].clone()],
+                &[(attacker.0, 150_000), (victim.0, EQ_AMOUNT - 151_000), (attacker.0, 1_000)],
+                &victim.1,
+                ts,
+            ));
+            if plan.nft {
+                let latest = node.blockchain.get_latest_block_id();
+                for (who, slip, deposit, recipient, label) in [
+                    (0, &a_slips[1], 400_000u64, victim.0, "a2v"),
+                    (0, &a_slips[2], 300_000, attacker.0, "a2a"),
+                    (1, &v_slips[3], 200_000, victim.0, "v2v"),
+                    (0, &a_slips[3], 0, attacker.0, "a0"),
+                ] {
+                    if label == "a0" && std::env::var("C01_NO_ZERO_DEPOSIT").is_ok() {
+                        // trial runs against a tree where NFTs must carry a deposit
+                        continue;
+                    }
+                    let w = if who == 0 { &mut aw } else { &mut vw };
+                    let mut t = w
+                        .create_bound_transaction(
+                            slip.amount,
+                            slip.block_id,
+                            slip.tx_ordinal,
+                            slip.slip_index as u64,
+                            deposit,
+                            vec![],
+                            &recipient,
+                            None,
+                            latest,
+                            plan.gp,
+                            label.to_string(),
+                        )
+                        .await
+                        .expect("create_bound_transaction");
+                    // distinct timestamps (the wallet leaves 0) so the map keeps them apart
+                    t.timestamp = ts + deposit / 100_000 + 1;
+                    t.sign(if who == 0 { &attacker.1 } else { &victim.1 });
+                    txs.push(t);
+                }
             }
+        }
+        if plan.stake > 0 {
+            txs.push(stake_tx_of_node(&node).await.expect("staking transaction"));
         }
         let b = make_block(&node, parent.hash, ts, txs, true, i as u64 + 100).await.unwrap();
         let r = node.add_block(b.clone()).await;
         assert_eq!(r, AddClass::OnChain, "world block {} rejected", b.id);
+        aw.on_chain_reorganization(&b, true, plan.gp);
+        vw.on_chain_reorganization(&b, true, plan.gp);
+        fill = b.transactions.iter().find(|t| t.signature == fsig).unwrap().to[0].clone();
+        blocks.push(b.clone());
         parent = b;
     }
-    if (len as u64) + 1 > gp + 1 {
-        // genesis outputs are older than the window now: any still-unspent one is "expired"
-        expired_slip = Some(attacker_slips[0].clone());
-    }
-    World { node, attacker, victim, attacker_slips, victim_slips, spent_slip, expired_slip, tip: parent }
+    Built { plan, blocks }
 }
 
-fn node_slip(b: &Block, pk: &SaitoPublicKey) -> Option<Slip> {
-    for tx in &b.transactions {
-        if tx.transaction_type == TransactionType::Normal || tx.transaction_type == TransactionType::Issuance {
-            for s in &tx.to {
-                if s.public_key == *pk && s.amount > 0 && s.slip_type == SlipType::Normal {
-                    return Some(s.clone());
+/// a fresh node holding the world's chain, plus everything the edits need
+async fn fresh_world(built: &Built) -> World {
+    let plan = built.plan;
+    let mut node = Node::new(&params_of(&plan), 1);
+    let attacker = keypair(2);
+    let victim = keypair(3);
+    let mut aw = Wallet::new(attacker.1, attacker.0);
+    let mut vw = Wallet::new(victim.1, victim.0);
+    for b in &built.blocks {
+        let r = node.add_block(b.clone()).await;
+        assert_eq!(r, AddClass::OnChain);
+        aw.on_chain_reorganization(b, true, plan.gp);
+        vw.on_chain_reorganization(b, true, plan.gp);
+    }
+    let g = &built.blocks[0];
+    let a_slips: Vec<Slip> = (0..8).map(|k| g.transactions[k].to[0].clone()).collect();
+    let v_slips: Vec<Slip> = (8..14).map(|k| g.transactions[k].to[0].clone()).collect();
+    let b2 = &built.blocks[1];
+    let replay_src = b2
+        .transactions
+        .iter()
+        .find(|t| t.transaction_type == TransactionType::Normal && t.from.len() == 1 && t.from[0].public_key == victim.0)
+        .unwrap()
+        .clone();
+    let victim_change = replay_src.to[1].clone();
+    let attacker_idx2 = replay_src.to[2].clone();
+    let nft_of = |creator: &SaitoPublicKey, deposit: u64| -> Option<Nft> {
+        b2.transactions
+            .iter()
+            .find(|t| {
+                t.transaction_type == TransactionType::Bound
+                    && t.to[0].public_key == *creator
+                    && t.to[1].amount == deposit
+            })
+            .map(|t| Nft { slips: [t.to[0].clone(), t.to[1].clone(), t.to[2].clone()] })
+    };
+    let tip = built.blocks.last().unwrap().clone();
+    let locked_stake = tip
+        .transactions
+        .iter()
+        .find(|t| t.transaction_type == TransactionType::BlockStake)
+        .and_then(|t| t.to.iter().find(|s| s.slip_type == SlipType::BlockStake && s.amount > 0).cloned());
+    let expired_slip = if plan.wrapped() { Some(a_slips[5].clone()) } else { None };
+    // the latest unspent output of the given type on chain, owned / not owned by the attacker
+    let find = |ty: SlipType, tx_ty: Option<TransactionType>, own: bool| -> Option<Slip> {
+        for b in built.blocks.iter().rev() {
+            for t in b.transactions.iter() {
+                if tx_ty.is_some() && Some(t.transaction_type) != tx_ty {
+                    continue;
+                }
+                for s in t.to.iter() {
+                    if s.slip_type == ty
+                        && s.amount > 0
+                        && (s.public_key == attacker.0) == own
+                        && node.blockchain.utxoset.get(&s.utxoset_key).copied().unwrap_or(false)
+                    {
+                        return Some(s.clone());
+                    }
                 }
             }
         }
+        None
+    };
+    let foreign_miner_output = find(SlipType::MinerOutput, Some(TransactionType::Fee), false);
+    let foreign_router_output = find(SlipType::RouterOutput, Some(TransactionType::Fee), false);
+    let foreign_atr = find(SlipType::ATR, Some(TransactionType::ATR), false);
+    let own_atr = find(SlipType::ATR, Some(TransactionType::ATR), true);
+    let foreign_stake = find(SlipType::BlockStake, Some(TransactionType::BlockStake), false);
+    World {
+        plan,
+        node,
+        attacker,
+        victim,
+        attacker_slips: a_slips[4..8].to_vec(),
+        victim_slips: v_slips[0..3].to_vec(),
+        spent_slip: a_slips[0].clone(),
+        expired_slip,
+        tip,
+        aw,
+        vw,
+        nft_a2v: nft_of(&attacker.0, 400_000),
+        nft_a2a: nft_of(&attacker.0, 300_000),
+        nft_v2v: nft_of(&victim.0, 200_000),
+        nft_a0: nft_of(&attacker.0, 0),
+        replay_src,
+        replay_alt: v_slips[5].clone(),
+        victim_change,
+        attacker_idx2,
+        locked_stake,
+        foreign_miner_output,
+        foreign_router_output,
+        foreign_atr,
+        foreign_stake,
+        own_atr,
     }
-    None
 }
 
 fn slip_out(pk: SaitoPublicKey, amount: u64) -> Slip {
+    slip_typed(pk, amount, SlipType::Normal)
+}
+fn slip_typed(pk: SaitoPublicKey, amount: u64, ty: SlipType) -> Slip {
     let mut o = Slip::default();
     o.public_key = pk;
     o.amount = amount;
+    o.slip_type = ty;
     o
 }
 
@@ -132,101 +459,324 @@ fn raw_tx(ty: TransactionType, from: Vec<Slip>, to: Vec<Slip>, sk: &SaitoPrivate
     tx
 }
 
+/// a transfer of the NFT `n` signed by `sk`: the three slips, the Normal one to `recipient`
+fn send_nft(n: &Nft, recipient: SaitoPublicKey, extra_from: Vec<Slip>, extra_to: Vec<Slip>, sk: &SaitoPrivateKey, ts: u64) -> Transaction {
+    let mut from = n.slips.to_vec();
+    from.extend(extra_from);
+    let mut to = vec![n.slips[0].clone(), slip_out(recipient, n.slips[1].amount), n.slips[2].clone()];
+    to.extend(extra_to);
+    raw_tx(TransactionType::Bound, from, to, sk, ts)
+}
+
 /// returns the adversarial transaction(s) for edit `e`; None if not applicable in this world
-fn make_edit(w: &World, e: usize, ts: u64, rng: &mut Rng) -> Option<Vec<Transaction>> {
+async fn make_edit(w: &mut World, e: usize, ts: u64, rng: &mut Rng) -> Option<Vec<Transaction>> {
     let own = w.attacker_slips[rng.below(w.attacker_slips.len() as u64 - 1) as usize + 1].clone();
-    let own2 = w.attacker_slips[0].clone();
     let vic = w.victim_slips[rng.below(w.victim_slips.len() as u64) as usize].clone();
     let (apk, ask) = (w.attacker.0, w.attacker.1);
+    let (vpk, vsk) = (w.victim.0, w.victim.1);
     let n = TransactionType::Normal;
-    Some(match EDITS[e].0 {
-        "baseline-valid" => vec![raw_tx(n, vec![own.clone()], vec![slip_out(apk, own.amount)], &ask, ts)],
+    let st = TransactionType::BlockStake;
+    let bd = TransactionType::Bound;
+    let req = w.node.blockchain.social_stake_requirement;
+    let stake_amt = req.max(500_000);
+    let gp = w.plan.gp;
+    let latest = w.node.blockchain.get_latest_block_id();
+    let one = |t: Transaction| Some(vec![t]);
+    match EDITS[e].name {
+        "baseline-valid" => one(raw_tx(n, vec![own.clone()], vec![slip_out(apk, own.amount)], &ask, ts)),
         "signature-flipped" => {
             let mut t = raw_tx(n, vec![own.clone()], vec![slip_out(apk, own.amount)], &ask, ts);
             t.signature[rng.below(64) as usize] ^= 0x40;
-            vec![t]
+            one(t)
         }
         "signature-zero" => {
             let mut t = raw_tx(n, vec![own.clone()], vec![slip_out(apk, own.amount)], &ask, ts);
             t.signature = [0; 64];
-            vec![t]
+            one(t)
         }
-        "foreign-extra-input" => vec![raw_tx(
-            n,
-            vec![own.clone(), vic.clone()],
-            vec![slip_out(apk, own.amount + vic.amount)],
-            &ask,
-            ts,
-        )],
-        "foreign-only-input" => vec![raw_tx(n, vec![vic.clone()], vec![slip_out(apk, vic.amount)], &ask, ts)],
+        "foreign-extra-input" => one(raw_tx(n, vec![own.clone(), vic.clone()], vec![slip_out(apk, own.amount + vic.amount)], &ask, ts)),
+        "foreign-extra-input-miner-output" | "foreign-extra-input-router-output" | "foreign-extra-input-block-stake" => {
+            let f = match EDITS[e].name {
+                "foreign-extra-input-miner-output" => w.foreign_miner_output.clone()?,
+                "foreign-extra-input-router-output" => w.foreign_router_output.clone()?,
+                _ => w.foreign_stake.clone()?,
+            };
+            one(raw_tx(n, vec![own.clone(), f.clone()], vec![slip_out(apk, own.amount + f.amount)], &ask, ts))
+        }
+        "foreign-extra-input-block-stake-zero-first" => {
+            // the signer named by a zero-amount slip of the attacker that exists nowhere
+            let f = w.foreign_stake.clone()?;
+            one(raw_tx(n, vec![slip_out(apk, 0), f.clone()], vec![slip_out(apk, f.amount)], &ask, ts))
+        }
+        "foreign-extra-input-atr" => {
+            // window wrapped: the victim's rebroadcast output next to the attacker's own one
+            let f = w.foreign_atr.clone()?;
+            let first = match w.own_atr.clone() {
+                Some(s) => s,
+                None => slip_out(apk, 0),
+            };
+            one(raw_tx(n, vec![first.clone(), f.clone()], vec![slip_out(apk, first.amount + f.amount)], &ask, ts))
+        }
+        "foreign-only-input" => one(raw_tx(n, vec![vic.clone()], vec![slip_out(apk, vic.amount)], &ask, ts)),
         "nonexistent-input" => {
             let mut s = own.clone();
             s.amount += 777;
-            vec![raw_tx(n, vec![s.clone()], vec![slip_out(apk, s.amount)], &ask, ts)]
+            one(raw_tx(n, vec![s.clone()], vec![slip_out(apk, s.amount)], &ask, ts))
         }
-        "already-spent-input" => vec![raw_tx(
-            n,
-            vec![w.spent_slip.clone()],
-            vec![slip_out(apk, w.spent_slip.amount)],
-            &ask,
-            ts,
-        )],
-        "duplicate-input-in-tx" => vec![raw_tx(
-            n,
-            vec![own.clone(), own.clone()],
-            vec![slip_out(apk, own.amount * 2)],
-            &ask,
-            ts,
-        )],
-        "same-input-in-two-txs" => vec![
+        "already-spent-input" => one(raw_tx(n, vec![w.spent_slip.clone()], vec![slip_out(apk, w.spent_slip.amount)], &ask, ts)),
+        "duplicate-input-in-tx" => one(raw_tx(n, vec![own.clone(), own.clone()], vec![slip_out(apk, own.amount * 2)], &ask, ts)),
+        "same-input-in-two-txs" => Some(vec![
             raw_tx(n, vec![own.clone()], vec![slip_out(apk, own.amount)], &ask, ts),
-            raw_tx(n, vec![own.clone()], vec![slip_out(w.victim.0, own.amount)], &ask, ts + 1),
-        ],
-        "outputs-exceed-inputs" => vec![raw_tx(n, vec![own.clone()], vec![slip_out(apk, own.amount + 1)], &ask, ts)],
-        "type-issuance" => vec![raw_tx(TransactionType::Issuance, vec![], vec![slip_out(apk, 123_456)], &ask, ts)],
-        "type-spv-with-outputs" => vec![raw_tx(TransactionType::SPV, vec![], vec![slip_out(apk, 123_456)], &ask, ts)],
-        "type-fee-forged" => vec![raw_tx(TransactionType::Fee, vec![], vec![slip_out(apk, 123_456)], &ask, ts)],
-        "type-atr-forged" => vec![raw_tx(
-            TransactionType::ATR,
-            vec![vic.clone()],
-            vec![slip_out(apk, vic.amount)],
-            &ask,
-            ts,
-        )],
-        "output-sum-wraps-u64" => vec![raw_tx(
-            n,
-            vec![own.clone()],
-            vec![slip_out(apk, u64::MAX - 5), slip_out(apk, own.amount + 6)],
-            &ask,
-            ts,
-        )],
+            raw_tx(n, vec![own.clone()], vec![slip_out(vpk, own.amount)], &ask, ts + 1),
+        ]),
+        "outputs-exceed-inputs" => one(raw_tx(n, vec![own.clone()], vec![slip_out(apk, own.amount + 1)], &ask, ts)),
+        "type-issuance" => one(raw_tx(TransactionType::Issuance, vec![], vec![slip_out(apk, 123_456)], &ask, ts)),
+        "type-spv-with-outputs" => one(raw_tx(TransactionType::SPV, vec![], vec![slip_out(apk, 123_456)], &ask, ts)),
+        "type-fee-forged" => one(raw_tx(TransactionType::Fee, vec![], vec![slip_out(apk, 123_456)], &ask, ts)),
+        "type-atr-forged" => one(raw_tx(TransactionType::ATR, vec![vic.clone()], vec![slip_out(apk, vic.amount)], &ask, ts)),
+        "output-sum-wraps-u64" => one(raw_tx(n, vec![own.clone()], vec![slip_out(apk, u64::MAX - 5), slip_out(apk, own.amount + 6)], &ask, ts)),
         "expired-input" => {
             let s = w.expired_slip.clone()?;
-            let _ = own2;
-            vec![raw_tx(n, vec![s.clone()], vec![slip_out(apk, s.amount)], &ask, ts)]
+            one(raw_tx(n, vec![s.clone()], vec![slip_out(apk, s.amount)], &ask, ts))
         }
         "unsigned-other-key" => {
             // signed by a key that owns nothing: from[0] is the victim's slip
             let other = keypair(9);
-            vec![raw_tx(n, vec![vic.clone()], vec![slip_out(other.0, vic.amount)], &other.1, ts)]
+            one(raw_tx(n, vec![vic.clone()], vec![slip_out(other.0, vic.amount)], &other.1, ts))
         }
-        _ => return None,
-    })
+        "replayed-signature-other-output" => {
+            // the victim's on-chain payment, its input replaced by another unspent output of
+            // the victim with the same amount / slip index / type; signature untouched
+            let mut t = w.replay_src.clone();
+            let mut s = w.replay_alt.clone();
+            s.generate_utxoset_key();
+            t.from[0] = s;
+            one(t)
+        }
+        // ------------------------------------------------------------ BlockStake
+        "stake-valid-wallet" => {
+            // the attacker stakes his own coins with the real wallet function
+            let mut t = w
+                .aw
+                .create_staking_transaction(stake_amt, w.node.blockchain.get_latest_unlocked_stake_block_id(), (latest + 1).saturating_sub(gp))
+                .ok()?;
+            t.timestamp = ts;
+            t.sign(&ask);
+            one(t)
+        }
+        "stake-valid-producer" => {
+            let mut t = stake_tx_of_node(&w.node).await?;
+            t.timestamp = ts + 7;
+            let sk = w.node.sk;
+            t.sign(&sk);
+            one(t)
+        }
+        "stake-foreign-input" => one(raw_tx(st, vec![vic.clone()], vec![slip_typed(apk, vic.amount, SlipType::BlockStake)], &ask, ts)),
+        "stake-foreign-extra-input" => one(raw_tx(
+            st,
+            vec![own.clone(), vic.clone()],
+            vec![slip_typed(apk, stake_amt, SlipType::BlockStake), slip_out(apk, own.amount + vic.amount - stake_amt)],
+            &ask,
+            ts,
+        )),
+        "stake-signature-zero" => {
+            let mut t = raw_tx(st, vec![own.clone()], vec![slip_typed(apk, stake_amt, SlipType::BlockStake), slip_out(apk, own.amount - stake_amt)], &ask, ts);
+            t.signature = [0; 64];
+            one(t)
+        }
+        "stake-no-inputs-mints" => one(raw_tx(st, vec![], vec![slip_typed(apk, stake_amt, SlipType::BlockStake), slip_out(apk, 123_456)], &ask, ts)),
+        "stake-inflated-outputs" => one(raw_tx(st, vec![own.clone()], vec![slip_typed(apk, own.amount, SlipType::BlockStake), slip_out(apk, 1000)], &ask, ts)),
+        "stake-output-type-vip" => one(raw_tx(
+            st,
+            vec![own.clone()],
+            vec![slip_typed(apk, stake_amt, SlipType::BlockStake), slip_typed(apk, own.amount - stake_amt, SlipType::VipOutput)],
+            &ask,
+            ts,
+        )),
+        "stake-below-requirement" => {
+            if req == 0 {
+                return None;
+            }
+            one(raw_tx(st, vec![own.clone()], vec![slip_typed(apk, req - 1, SlipType::BlockStake), slip_out(apk, own.amount - req + 1)], &ask, ts))
+        }
+        "stake-locked-input" => {
+            // the producer re-stakes the stake it locked in the tip block
+            let s = w.locked_stake.clone()?;
+            let (npk, nsk) = (w.node.pk, w.node.sk);
+            one(raw_tx(st, vec![s.clone()], vec![slip_typed(npk, s.amount, SlipType::BlockStake)], &nsk, ts))
+        }
+        "stake-locked-spent-by-normal-tx" => {
+            let s = w.locked_stake.clone()?;
+            let (npk, nsk) = (w.node.pk, w.node.sk);
+            one(raw_tx(n, vec![s.clone()], vec![slip_out(npk, s.amount)], &nsk, ts))
+        }
+        // ------------------------------------------------------------ Bound (NFT)
+        "bound-create-valid" => {
+            let mut t = w
+                .aw
+                .create_bound_transaction(own.amount, own.block_id, own.tx_ordinal, own.slip_index as u64, 250_000, vec![], &vpk, None, latest, gp, "c01".to_string())
+                .await
+                .ok()?;
+            t.timestamp = ts;
+            t.sign(&ask);
+            one(t)
+        }
+        "bound-send-valid" => {
+            // creator = holder: the attacker hands his NFT to the victim (real wallet function)
+            let id = w.nft_a2a.as_ref()?.id();
+            let mut t = w.aw.create_send_bound_transaction(1, id, vec![], &vpk).await.ok()?;
+            t.timestamp = ts;
+            t.sign(&ask);
+            one(t)
+        }
+        "bound-owner-not-creator-sends" => {
+            // the victim holds the NFT the attacker minted for him and sends it on
+            let id = w.nft_a2v.as_ref()?.id();
+            let mut t = w.vw.create_send_bound_transaction(1, id, vec![], &keypair(9).0).await.ok()?;
+            t.timestamp = ts;
+            t.sign(&vsk);
+            one(t)
+        }
+        "bound-creator-reclaims-deposit" => {
+            // the creator moves the NFT he gave away -- and the holder's deposit -- to himself
+            let nft = w.nft_a2v.clone()?;
+            one(send_nft(&nft, apk, vec![], vec![], &ask, ts))
+        }
+        "bound-foreign-extra-input" => {
+            // the attacker's own NFT, plus a Normal output of the victim as 4th input
+            let nft = w.nft_a2a.clone()?;
+            one(send_nft(&nft, apk, vec![vic.clone()], vec![slip_out(apk, vic.amount)], &ask, ts))
+        }
+        "bound-fabricated-triple" => {
+            // no NFT needed: zero-amount Bound slips invented around an output of the victim
+            let v = w.victim_change.clone();
+            let mut f0 = slip_typed(apk, 0, SlipType::Bound);
+            f0.block_id = v.block_id;
+            f0.tx_ordinal = v.tx_ordinal;
+            f0.slip_index = v.slip_index - 1;
+            let mut f2 = f0.clone();
+            f2.slip_index = v.slip_index + 1;
+            one(raw_tx(bd, vec![f0.clone(), v.clone(), f2.clone()], vec![f0, slip_out(apk, v.amount), f2], &ask, ts))
+        }
+        "bound-send-others-nft" => {
+            let nft = w.nft_v2v.clone()?;
+            one(send_nft(&nft, apk, vec![], vec![], &ask, ts))
+        }
+        "bound-detached-triple" => {
+            // the Normal slip of the triple replaced by the Normal slip of ANOTHER NFT of the
+            // attacker (same block, slip index 1 as well, different transaction)
+            let nft = w.nft_a0.clone()?;
+            let other = w.nft_a2a.clone()?.slips[1].clone();
+            one(raw_tx(
+                bd,
+                vec![nft.slips[0].clone(), other.clone(), nft.slips[2].clone()],
+                vec![nft.slips[0].clone(), slip_out(apk, other.amount), nft.slips[2].clone()],
+                &ask,
+                ts,
+            ))
+        }
+        "bound-send-amount-modified" => {
+            let nft = w.nft_a2a.clone()?;
+            let mut t = send_nft(&nft, apk, vec![], vec![], &ask, ts);
+            t.to[0].amount = 5;
+            t.sign(&ask);
+            one(t)
+        }
+        "bound-send-wrong-order" => {
+            let nft = w.nft_a2a.clone()?;
+            one(raw_tx(
+                bd,
+                vec![nft.slips[1].clone(), nft.slips[0].clone(), nft.slips[2].clone()],
+                vec![slip_out(apk, nft.slips[1].amount), nft.slips[0].clone(), nft.slips[2].clone()],
+                &ask,
+                ts,
+            ))
+        }
+        "bound-send-uuid-modified" => {
+            let nft = w.nft_a2a.clone()?;
+            let mut t = send_nft(&nft, apk, vec![], vec![], &ask, ts);
+            t.to[2].public_key[20] ^= 1;
+            t.sign(&ask);
+            one(t)
+        }
+        "bound-send-forged-uuid-input" => {
+            // slip3 carries no amount, so nothing ties it to the ledger: the id is rewritten
+            let nft = w.nft_a2a.clone()?;
+            let mut t = send_nft(&nft, apk, vec![], vec![], &ask, ts);
+            let other = w.nft_v2v.clone()?.slips[2].public_key;
+            t.from[2].public_key = other;
+            t.to[2].public_key = other;
+            t.sign(&ask);
+            one(t)
+        }
+        "bound-send-deposit-inflated" => {
+            let nft = w.nft_a2a.clone()?;
+            let mut t = send_nft(&nft, apk, vec![], vec![], &ask, ts);
+            t.to[1].amount += 1;
+            t.sign(&ask);
+            one(t)
+        }
+        "bound-create-id-block-mismatch" | "bound-create-id-ordinal-mismatch" | "bound-create-id-index-mismatch" | "bound-create-slip3-nonzero"
+        | "bound-create-inflated" | "bound-create-extra-bound-output" => {
+            let mut t = w
+                .aw
+                .create_bound_transaction(own.amount, own.block_id, own.tx_ordinal, own.slip_index as u64, 250_000, vec![], &apk, None, latest, gp, "c01".to_string())
+                .await
+                .ok()?;
+            t.timestamp = ts;
+            match EDITS[e].name {
+                "bound-create-id-block-mismatch" => t.to[2].public_key[7] ^= 1,
+                "bound-create-id-ordinal-mismatch" => t.to[2].public_key[15] ^= 1,
+                "bound-create-id-index-mismatch" => t.to[2].public_key[16] ^= 1,
+                "bound-create-slip3-nonzero" => t.to[2].amount = 1,
+                "bound-create-inflated" => t.to[3].amount += 1,
+                _ => t.add_to_slip(slip_typed(apk, 1_000_000_000_000, SlipType::Bound)),
+            }
+            t.sign(&ask);
+            one(t)
+        }
+        "bound-create-foreign-input" => {
+            let mut input = vic.clone();
+            input.generate_utxoset_key();
+            let uuid = Wallet::create_nft_uuid(&input, "c01");
+            one(raw_tx(
+                bd,
+                vec![input.clone()],
+                vec![slip_typed(apk, 1, SlipType::Bound), slip_out(apk, input.amount), slip_typed(uuid, 0, SlipType::Bound)],
+                &ask,
+                ts,
+            ))
+        }
+        "bound-slip-in-normal-tx-output" => one(raw_tx(n, vec![own.clone()], vec![slip_out(apk, own.amount), slip_typed(apk, 1_000_000_000, SlipType::Bound)], &ask, ts)),
+        "bound-slip-in-normal-tx-input" => {
+            let nft = w.nft_a2a.clone()?;
+            one(raw_tx(n, vec![own.clone(), nft.slips[0].clone()], vec![slip_out(apk, own.amount)], &ask, ts))
+        }
+        "bound-same-nft-twice-in-block" => {
+            // an NFT without deposit has no value-carrying slip: both transfers pass the sweep
+            let nft = w.nft_a0.clone()?;
+            Some(vec![send_nft(&nft, apk, vec![], vec![], &ask, ts), send_nft(&nft, vpk, vec![], vec![], &ask, ts + 1)])
+        }
+        _ => None,
+    }
 }
 
 /// attacker's block: a consistent block around a valid zero-fee transaction of
-/// the attacker, whose transaction is then swapped for the adversarial one(s)
-async fn attacker_block(w: &World, adversarial: &[Transaction], ts: u64, seed: u64) -> Option<Block> {
+/// the attacker (plus the producer's staking transaction where required), whose
+/// carrier (or staking transaction) is then swapped for the adversarial one(s)
+async fn attacker_block(w: &World, adversarial: &[Transaction], stake_slot: bool, ts: u64, seed: u64) -> Option<Block> {
     let own2 = w.attacker_slips[0].clone();
-    let carrier = raw_tx(
-        TransactionType::Normal,
-        vec![own2.clone()],
-        vec![slip_out(w.attacker.0, own2.amount)],
-        &w.attacker.1,
-        ts,
-    );
-    let mut b = make_block(&w.node, w.tip.hash, ts, vec![carrier.clone()], true, seed).await.ok()?;
-    let idx = b.transactions.iter().position(|t| t.signature == carrier.signature)?;
+    let carrier = raw_tx(TransactionType::Normal, vec![own2.clone()], vec![slip_out(w.attacker.0, own2.amount)], &w.attacker.1, ts);
+    let mut txs = vec![carrier.clone()];
+    let mut stake_sig = None;
+    if w.plan.stake > 0 {
+        let st = stake_tx_of_node(&w.node).await?;
+        stake_sig = Some(st.signature);
+        txs.push(st);
+    }
+    let mut b = make_block(&w.node, w.tip.hash, ts, txs, true, seed).await.ok()?;
+    let replace_sig = if stake_slot && stake_sig.is_some() { stake_sig.unwrap() } else { carrier.signature };
+    let idx = b.transactions.iter().position(|t| t.signature == replace_sig)?;
     b.transactions.remove(idx);
     for (k, t) in adversarial.iter().enumerate() {
         b.transactions.insert(idx + k, t.clone());
@@ -237,17 +787,30 @@ async fn attacker_block(w: &World, adversarial: &[Transaction], ts: u64, seed: u
     Some(b)
 }
 
-/// abstract transaction for the Coq model (TxValid.atx)
-fn abstract_tx(w: &World, tx: &Transaction, int: &mut Interner) -> String {
+fn be64(b: &[u8]) -> u64 {
+    u64::from_be_bytes(b.try_into().unwrap())
+}
+
+/// abstract transaction for the Coq model (TxValid.atx); oracle bits by the real code
+fn abstract_tx(node: &Node, tx: &Transaction, int: &mut Interner) -> String {
     let slip = |s: &Slip, int: &mut Interner| {
-        let spendable = w.node.blockchain.utxoset.get(&s.utxoset_key).copied().unwrap_or(false);
+        let spendable = node.blockchain.utxoset.get(&s.utxoset_key).copied().unwrap_or(false);
+        let unlocked = node.blockchain.is_slip_unlocked(&s.utxoset_key);
         format!(
-            "mkSlip {} {} {} {} {}",
+            "mkSlip {} {} {} {} {} {} {} {} {} {} {} {} {}",
             int.get(&s.public_key),
             s.amount,
             s.slip_type as u8,
             int.get(&s.utxoset_key),
-            gal::boolean(spendable)
+            gal::boolean(spendable),
+            s.block_id,
+            s.tx_ordinal,
+            s.slip_index,
+            gal::boolean(unlocked),
+            be64(&s.utxoset_key[50..58]),
+            be64(&s.public_key[0..8]),
+            be64(&s.public_key[8..16]),
+            s.public_key[16]
         )
     };
     let from: Vec<String> = tx.from.iter().map(|s| slip(s, int)).collect();
@@ -267,6 +830,341 @@ fn abstract_tx(w: &World, tx: &Transaction, int: &mut Interner) -> String {
     )
 }
 
+/// are u64/u8 overflow checks compiled in (debug profile)?
+fn overflow_checks_on() -> bool {
+    let x = std::hint::black_box(u64::MAX);
+    std::panic::catch_unwind(|| std::hint::black_box(x + std::hint::black_box(1))).is_err()
+}
+
+fn real_verdict(node: &Node, t: &Transaction) -> u64 {
+    match std::panic::catch_unwind(AssertUnwindSafe(|| t.validate(&node.blockchain.utxoset, &node.blockchain, true))) {
+        Ok(true) => 1,
+        Ok(false) => 0,
+        Err(_) => 9,
+    }
+}
+
+fn tx_desc(t: &Transaction) -> String {
+    let sl = |s: &Slip| format!("[{},{},{},{},{}]", s.slip_type as u8, s.amount, s.block_id, s.tx_ordinal, s.slip_index);
+    format!(
+        "{{\"type\":{},\"from\":[{}],\"to\":[{}]}}",
+        t.transaction_type as u8,
+        t.from.iter().map(sl).collect::<Vec<_>>().join(","),
+        t.to.iter().map(sl).collect::<Vec<_>>().join(",")
+    )
+}
+
+// ---------------------------------------------------------------- field mutations
+
+const SLIP_TYPES: &[SlipType] = &[SlipType::Normal, SlipType::Bound, SlipType::BlockStake, SlipType::ATR, SlipType::VipOutput];
+const TX_TYPES: &[TransactionType] = &[
+    TransactionType::Normal,
+    TransactionType::BlockStake,
+    TransactionType::Bound,
+    TransactionType::GoldenTicket,
+    TransactionType::ATR,
+    TransactionType::Issuance,
+    TransactionType::SPV,
+    TransactionType::Vip,
+    TransactionType::Fee,
+];
+
+/// valid transactions of the attacker in world `w` that the mutations start from
+async fn bases(w: &mut World, ts: u64) -> Vec<(&'static str, Transaction, SaitoPrivateKey)> {
+    let mut v = vec![];
+    let mut r = Rng::new(ts);
+    for name in [
+        "baseline-valid",
+        "stake-valid-wallet",
+        "stake-valid-producer",
+        "bound-create-valid",
+        "bound-send-valid",
+        "bound-foreign-extra-input",
+        "bound-fabricated-triple",
+        "bound-creator-reclaims-deposit",
+    ] {
+        let e = EDITS.iter().position(|x| x.name == name).unwrap();
+        if let Some(mut t) = make_edit(w, e, ts, &mut r).await {
+            let sk = if name == "stake-valid-producer" { w.node.sk } else { w.attacker.1 };
+            v.push((name, t.remove(0), sk));
+        }
+    }
+    v
+}
+
+fn mutate(w: &World, t: &mut Transaction, rng: &mut Rng) -> &'static str {
+    let nf = t.from.len() as u64;
+    let nt = t.to.len() as u64;
+    let pick_amount = |rng: &mut Rng, cur: u64| *rng.pick(&[0u64, 1, cur.wrapping_add(1), cur.saturating_sub(1), u64::MAX, u64::MAX - 3, 1 << 63]);
+    match rng.below(17) {
+        0 if nf > 0 => {
+            let i = rng.below(nf) as usize;
+            t.from[i].slip_type = *rng.pick(SLIP_TYPES);
+            "from-type"
+        }
+        1 if nt > 0 => {
+            let i = rng.below(nt) as usize;
+            t.to[i].slip_type = *rng.pick(SLIP_TYPES);
+            "to-type"
+        }
+        2 if nf > 0 => {
+            let i = rng.below(nf) as usize;
+            t.from[i].amount = pick_amount(rng, t.from[i].amount);
+            "from-amount"
+        }
+        3 if nt > 0 => {
+            let i = rng.below(nt) as usize;
+            t.to[i].amount = pick_amount(rng, t.to[i].amount);
+            "to-amount"
+        }
+        4 if nf > 0 => {
+            let i = rng.below(nf) as usize;
+            t.from[i].slip_index = *rng.pick(&[0u8, 1, 2, 3, 254, 255]);
+            "from-slip-index"
+        }
+        5 if nf > 0 => {
+            let i = rng.below(nf) as usize;
+            if rng.below(2) == 0 {
+                t.from[i].block_id += 1;
+            } else {
+                t.from[i].tx_ordinal += 1;
+            }
+            "from-location"
+        }
+        6 if nf > 1 => {
+            let i = rng.below(nf) as usize;
+            let j = rng.below(nf) as usize;
+            t.from.swap(i, j);
+            "from-swap"
+        }
+        7 if nt > 1 => {
+            let i = rng.below(nt) as usize;
+            let j = rng.below(nt) as usize;
+            t.to.swap(i, j);
+            "to-swap"
+        }
+        8 if nf > 0 => {
+            let i = rng.below(nf) as usize;
+            t.from.remove(i);
+            "from-remove"
+        }
+        9 if nt > 0 => {
+            let i = rng.below(nt) as usize;
+            t.to.remove(i);
+            "to-remove"
+        }
+        10 if nf > 0 => {
+            let i = rng.below(nf) as usize;
+            let s = t.from[i].clone();
+            t.from.push(s);
+            "from-duplicate"
+        }
+        11 if nf > 0 => {
+            let i = rng.below(nf) as usize;
+            t.from[i].public_key = *rng.pick(&[w.attacker.0, w.victim.0, w.node.pk]);
+            "from-key"
+        }
+        12 if nt > 0 => {
+            let i = rng.below(nt) as usize;
+            t.to[i].public_key = *rng.pick(&[w.attacker.0, w.victim.0, t.to[i].public_key]);
+            if rng.below(2) == 0 {
+                t.to[i].public_key[rng.below(17) as usize] ^= 1;
+            }
+            "to-key"
+        }
+        13 => {
+            t.transaction_type = *rng.pick(TX_TYPES);
+            "tx-type"
+        }
+        14 => {
+            let s = rng.pick(&[w.victim_slips[0].clone(), w.attacker_slips[1].clone(), w.attacker_slips[2].clone()]).clone();
+            let at = rng.below(nf + 1) as usize;
+            t.from.insert(at, s);
+            "from-insert"
+        }
+        15 => {
+            let s = slip_typed(w.attacker.0, *rng.pick(&[0u64, 1, 1000]), *rng.pick(SLIP_TYPES));
+            let at = rng.below(nt + 1) as usize;
+            t.to.insert(at, s);
+            "to-insert"
+        }
+        _ => {
+            if let Some(nft) = &w.nft_a0 {
+                // the zero-deposit NFT's slips in front: another way into the send rules
+                let mut f = nft.slips.to_vec();
+                f.extend(t.from.drain(..));
+                t.from = f;
+                let mut o = vec![nft.slips[0].clone(), slip_out(w.attacker.0, 0), nft.slips[2].clone()];
+                o.extend(t.to.drain(..));
+                t.to = o;
+                "prepend-triple"
+            } else {
+                "none"
+            }
+        }
+    }
+}
+
+/// scripted transactions around the two additions that can overflow
+fn overflow_cases(w: &World, ts: u64) -> Vec<(&'static str, Transaction)> {
+    let (apk, ask) = (w.attacker.0, w.attacker.1);
+    let own = w.attacker_slips[1].clone();
+    let mut v = vec![];
+    for (name, outs) in [
+        ("stake-sum-overflows", vec![(u64::MAX, SlipType::BlockStake), (5, SlipType::BlockStake)]),
+        ("stake-sum-overflows-after-bad-type", vec![(5, SlipType::VipOutput), (u64::MAX, SlipType::BlockStake), (5, SlipType::BlockStake)]),
+        ("stake-sum-overflows-before-bad-type", vec![(u64::MAX, SlipType::BlockStake), (5, SlipType::BlockStake), (5, SlipType::VipOutput)]),
+        ("stake-sum-max-exact", vec![(u64::MAX - 5, SlipType::BlockStake), (5, SlipType::BlockStake)]),
+        ("stake-normal-huge", vec![(u64::MAX, SlipType::Normal), (5, SlipType::BlockStake), (u64::MAX, SlipType::Normal)]),
+    ] {
+        let to = outs.iter().map(|(a, ty)| slip_typed(apk, *a, *ty)).collect();
+        v.push((name, raw_tx(TransactionType::BlockStake, vec![own.clone()], to, &ask, ts)));
+    }
+    for (name, i0, i1, i2) in [
+        ("send-index-255-0-1", 255u8, 0u8, 1u8),
+        ("send-index-254-255-0", 254, 255, 0),
+        ("send-index-253-254-255", 253, 254, 255),
+        ("send-index-255-1-2", 255, 1, 2),
+        ("send-index-7-8-10", 7, 8, 10),
+    ] {
+        let mk = |i: u8, ty: SlipType| {
+            let mut s = slip_typed(apk, 0, ty);
+            s.block_id = 1;
+            s.tx_ordinal = 3;
+            s.slip_index = i;
+            s
+        };
+        let (f0, f1, f2) = (mk(i0, SlipType::Bound), mk(i1, SlipType::Normal), mk(i2, SlipType::Bound));
+        v.push((name, raw_tx(TransactionType::Bound, vec![f0.clone(), f1.clone(), f2.clone()], vec![f0, slip_out(apk, 0), f2], &ask, ts)));
+    }
+    v
+}
+
+/// one transaction per rule of the BlockStake / Bound branches that breaks that rule and
+/// nothing else (the altered slips are zero-amount, invented ones or outputs being created, so
+/// the ledger look-ups are unaffected), each preceded by its valid base
+async fn rule_probes(w: &mut World, ts: u64) -> Vec<(String, Transaction)> {
+    let (apk, ask) = (w.attacker.0, w.attacker.1);
+    let mut v: Vec<(String, Transaction)> = vec![];
+    // ---- send rules: an invented triple around an output of the attacker himself
+    let mid = w.attacker_idx2.clone();
+    let mk = |d_idx: i16| {
+        let mut s = slip_typed(apk, 0, SlipType::Bound);
+        s.block_id = mid.block_id;
+        s.tx_ordinal = mid.tx_ordinal;
+        s.slip_index = (mid.slip_index as i16 + d_idx) as u8;
+        s
+    };
+    let base_from = vec![mk(-1), mid.clone(), mk(1)];
+    let base_to = vec![mk(-1), slip_out(apk, mid.amount), mk(1)];
+    let zero_normal = slip_out(apk, 0);
+    let zero_bound = slip_typed(apk, 0, SlipType::Bound);
+    let mut send = |name: &str, f: &dyn Fn(&mut Vec<Slip>, &mut Vec<Slip>)| {
+        let (mut from, mut to) = (base_from.clone(), base_to.clone());
+        f(&mut from, &mut to);
+        v.push((format!("send:{}", name), raw_tx(TransactionType::Bound, from, to, &ask, ts)));
+    };
+    send("base", &|_, _| {});
+    send("from0-normal", &|f, _| f[0].slip_type = SlipType::Normal);
+    send("from2-normal", &|f, _| f[2].slip_type = SlipType::Normal);
+    send("to0-normal", &|_, t| t[0].slip_type = SlipType::Normal);
+    send("to1-bound", &|_, t| t[1].slip_type = SlipType::Bound);
+    send("to1-atr", &|_, t| t[1].slip_type = SlipType::ATR);
+    send("to2-normal", &|_, t| t[2].slip_type = SlipType::Normal);
+    send("extra-from-normal", &|f, _| f.push(zero_normal.clone()));
+    send("extra-from-bound", &|f, _| f.push(zero_bound.clone()));
+    send("extra-to-normal", &|_, t| t.push(zero_normal.clone()));
+    send("extra-to-bound", &|_, t| t.push(zero_bound.clone()));
+    send("to0-key", &|_, t| t[0].public_key[5] ^= 1);
+    send("to2-key", &|_, t| t[2].public_key[5] ^= 1);
+    send("to0-amount", &|_, t| t[0].amount = 1);
+    send("to2-amount", &|_, t| t[2].amount = 1);
+    send("from0-block", &|f, _| f[0].block_id += 1);
+    send("from2-block", &|f, _| f[2].block_id += 1);
+    send("from0-ordinal", &|f, _| f[0].tx_ordinal += 1);
+    send("from2-ordinal", &|f, _| f[2].tx_ordinal += 1);
+    send("from0-index", &|f, _| f[0].slip_index -= 1);
+    send("from2-index", &|f, _| f[2].slip_index += 1);
+    send("two-inputs", &|f, _| {
+        f.pop();
+    });
+    send("two-outputs", &|_, t| {
+        t.pop();
+    });
+    // ---- create rules
+    let own = w.attacker_slips[2].clone();
+    let latest = w.node.blockchain.get_latest_block_id();
+    let base = w
+        .aw
+        .create_bound_transaction(own.amount, own.block_id, own.tx_ordinal, own.slip_index as u64, 250_000, vec![], &apk, None, latest, w.plan.gp, "c01".to_string())
+        .await;
+    if let Ok(mut base) = base {
+        base.timestamp = ts;
+        let mut create = |name: &str, f: &dyn Fn(&mut Transaction)| {
+            let mut t = base.clone();
+            f(&mut t);
+            t.sign(&ask);
+            v.push((format!("create:{}", name), t));
+        };
+        create("base", &|_| {});
+        create("to0-normal", &|t| t.to[0].slip_type = SlipType::Normal);
+        create("to1-bound", &|t| t.to[1].slip_type = SlipType::Bound);
+        create("to1-stake", &|t| t.to[1].slip_type = SlipType::BlockStake);
+        create("to2-normal", &|t| t.to[2].slip_type = SlipType::Normal);
+        create("to2-amount", &|t| t.to[2].amount = 1);
+        create("to3-bound", &|t| t.to[3].slip_type = SlipType::Bound);
+        create("id-block", &|t| t.to[2].public_key[7] ^= 1);
+        create("id-block-high", &|t| t.to[2].public_key[0] ^= 1);
+        create("id-ordinal", &|t| t.to[2].public_key[15] ^= 1);
+        create("id-index", &|t| t.to[2].public_key[16] ^= 1);
+        create("id-type-tag", &|t| t.to[2].public_key[17] ^= 1);
+        create("to0-amount-huge", &|t| t.to[0].amount = u64::MAX);
+        create("two-outputs", &|t| t.to.truncate(2));
+        create("three-outputs", &|t| t.to.truncate(3));
+        create("input-bound", &|t| t.from[0].slip_type = SlipType::Bound);
+        create("second-input", &|t| t.from.push(zero_normal.clone()));
+    }
+    // ---- stake rules
+    let own = w.attacker_slips[3].clone();
+    let req = w.node.blockchain.social_stake_requirement.max(1000);
+    let mut stake = |name: &str, outs: Vec<Slip>, extra_in: Vec<Slip>| {
+        let mut from = vec![own.clone()];
+        from.extend(extra_in);
+        v.push((format!("stake:{}", name), raw_tx(TransactionType::BlockStake, from, outs, &ask, ts)));
+    };
+    stake("base", vec![slip_typed(apk, req, SlipType::BlockStake), slip_out(apk, own.amount - req)], vec![]);
+    stake("exact-two-slips", vec![slip_typed(apk, req - 1, SlipType::BlockStake), slip_typed(apk, 1, SlipType::BlockStake)], vec![]);
+    stake("one-short", vec![slip_typed(apk, req - 1, SlipType::BlockStake), slip_out(apk, 1)], vec![]);
+    stake("out-atr", vec![slip_typed(apk, req, SlipType::BlockStake), slip_typed(apk, 1, SlipType::ATR)], vec![]);
+    stake("out-bound", vec![slip_typed(apk, req, SlipType::BlockStake), slip_typed(apk, 1, SlipType::Bound)], vec![]);
+    stake("zero-amount-input", vec![slip_typed(apk, req, SlipType::BlockStake)], vec![zero_normal.clone()]);
+    if let Some(l) = w.locked_stake.clone() {
+        let (npk, nsk) = (w.node.pk, w.node.sk);
+        v.push(("stake:locked".to_string(), raw_tx(TransactionType::BlockStake, vec![l.clone()], vec![slip_typed(npk, l.amount, SlipType::BlockStake)], &nsk, ts)));
+    }
+    // ---- Bound slips elsewhere, slip count limits
+    let own = w.attacker_slips[1].clone();
+    v.push(("normal:bound-zero-input".to_string(), raw_tx(TransactionType::Normal, vec![own.clone(), zero_bound.clone()], vec![slip_out(apk, own.amount)], &ask, ts)));
+    v.push(("normal:bound-zero-output".to_string(), raw_tx(TransactionType::Normal, vec![own.clone()], vec![slip_out(apk, own.amount), zero_bound.clone()], &ask, ts)));
+    v.push(("golden-ticket-type:bound-output".to_string(), raw_tx(TransactionType::GoldenTicket, vec![own.clone()], vec![slip_out(apk, own.amount), zero_bound.clone()], &ask, ts)));
+    for (name, nin, nout) in [("255-inputs", 255usize, 1usize), ("256-inputs", 256, 1), ("255-outputs", 1, 255), ("256-outputs", 1, 256)] {
+        let mut from = vec![own.clone()];
+        from.extend((1..nin).map(|_| zero_normal.clone()));
+        let mut to = vec![slip_out(apk, own.amount)];
+        to.extend((1..nout).map(|_| zero_normal.clone()));
+        // add_from_slip / add_to_slip refuse to grow beyond 255: push directly
+        let mut t = raw_tx(TransactionType::Normal, vec![], vec![], &ask, ts);
+        for mut s in from {
+            s.generate_utxoset_key();
+            t.from.push(s);
+        }
+        t.to = to;
+        t.sign(&ask);
+        v.push((format!("normal:{}", name), t));
+    }
+    v
+}
+
 #[tokio::main(flavor = "current_thread")]
 async fn main() {
     verif_harness::common::init_log();
@@ -275,32 +1173,66 @@ async fn main() {
         std::panic::set_hook(Box::new(|_| {}));
     }
     let thorough = args.tier == "thorough";
+    let ovf = overflow_checks_on();
     let mut rng = Rng::new(args.seed);
     let mut summary = Summary::new("C01");
-    let mut coq_cases = vec![];
+    summary.notes.push(format!("overflow checks compiled in: {}", ovf));
+    let mut coq_cases: Vec<String> = vec![];
     let mut distinct = BTreeSet::new();
     let mut case_no = 0usize;
-    let worlds = if thorough { 24 } else { 6 };
-    for wi in 0..worlds {
-        let (gp, len) = *rng.pick(&[(20u64, 2usize), (20, 5), (5, 8), (4, 7), (8, 3)]);
-        let w0 = build_world(gp, len, &mut rng).await;
-        drop(w0);
-        let wrapped = (len as u64) + 1 > gp + 1;
-        for e in 0..EDITS.len() {
-            // once the window has wrapped the genesis outputs are gone: only the
-            // expired-input edit is meaningful in such a world
-            if wrapped != (EDITS[e].0 == "expired-input") {
+    let mut plans: Vec<Plan> = vec![
+        Plan { gp: 20, len: 2, stake: 0, nft: true, fee: 0 },
+        Plan { gp: 20, len: 4, stake: STAKE, nft: true, fee: 5_000 },
+        Plan { gp: 5, len: 8, stake: 0, nft: false, fee: 0 },
+        Plan { gp: 8, len: 3, stake: STAKE, nft: false, fee: 0 },
+        Plan { gp: 4, len: 7, stake: 0, nft: false, fee: 0 },
+        Plan { gp: 20, len: 4, stake: 0, nft: false, fee: 7_000 },
+    ];
+    if thorough {
+        for _ in 0..14 {
+            let (gp, len) = *rng.pick(&[(20u64, 2usize), (20, 5), (5, 8), (4, 7), (8, 3), (12, 6), (30, 1)]);
+            let wrapped = (len as u64) + 1 > gp + 1;
+            plans.push(Plan {
+                gp,
+                len,
+                stake: if !wrapped && rng.below(2) == 0 { STAKE } else { 0 },
+                nft: !wrapped && rng.below(3) > 0,
+                fee: if !wrapped && len >= 3 && rng.below(2) == 0 { 1_000 + rng.below(9_000) } else { 0 },
+            });
+        }
+    }
+    let n_fuzz = if thorough { 600 } else { 160 };
+    for (wi, plan) in plans.iter().enumerate() {
+        let mut brng = Rng::new(args.seed * 1000 + wi as u64);
+        let built = build_blocks(*plan, &mut brng).await;
+        let env = |w: &World| format!("mkEnv {} {}", w.node.blockchain.social_stake_requirement, gal::boolean(ovf));
+        let world_desc = format!(
+            "\"genesis_period\":{},\"chain_len\":{},\"social_stake\":{},\"nfts_on_chain\":{},\"fee_per_block\":{}",
+            plan.gp,
+            plan.len + 1,
+            plan.stake,
+            plan.nft,
+            plan.fee
+        );
+        for (e, edit) in EDITS.iter().enumerate() {
+            let applicable = match edit.needs {
+                Needs::Wrapped => plan.wrapped(),
+                Needs::Fresh => !plan.wrapped(),
+                Needs::Nft => !plan.wrapped() && plan.nft,
+                Needs::Staking => !plan.wrapped() && plan.stake > 0,
+                Needs::Payouts => !plan.wrapped() && plan.fee > 0 && plan.len >= 3,
+            };
+            if !applicable {
                 continue;
             }
             for venue in ["pool", "block"] {
-                if venue == "pool" && EDITS[e].0 == "same-input-in-two-txs" {
+                if venue == "pool" && edit.venues == Venues::BlockOnly {
                     continue;
                 }
-                // a fresh world per case (deterministic rebuild) so cases do not interfere
-                let mut wrng = Rng::new(args.seed * 1000 + wi as u64);
-                let mut w = build_world(gp, len, &mut wrng).await;
+                // a fresh node per case (the world's blocks replayed) so cases do not interfere
+                let mut w = fresh_world(&built).await;
                 let ts = w.tip.timestamp + 150_000;
-                let txs = match make_edit(&w, e, ts, &mut rng) {
+                let txs = match make_edit(&mut w, e, ts, &mut rng).await {
                     Some(t) => t,
                     None => continue,
                 };
@@ -314,47 +1246,35 @@ async fn main() {
                     }
                 }
                 let desc = format!(
-                    "{{\"case\":{},\"edit\":\"{}\",\"venue\":\"{}\",\"genesis_period\":{},\"chain_len\":{},\"tx_types\":{:?},\"inputs\":{:?},\"outputs\":{:?}}}",
+                    "{{\"case\":{},\"edit\":\"{}\",\"venue\":\"{}\",{},\"txs\":[{}]}}",
                     case_no,
-                    EDITS[e].0,
+                    edit.name,
                     venue,
-                    gp,
-                    len + 1,
-                    txs.iter().map(|t| t.transaction_type as u8).collect::<Vec<_>>(),
-                    txs.iter().map(|t| t.from.iter().map(|s| s.amount).collect::<Vec<_>>()).collect::<Vec<_>>(),
-                    txs.iter().map(|t| t.to.iter().map(|s| s.amount).collect::<Vec<_>>()).collect::<Vec<_>>()
+                    world_desc,
+                    generated.iter().map(tx_desc).collect::<Vec<_>>().join(",")
                 );
                 // model comparison: verdict of the real Transaction::validate on each tx
                 let mut verdicts = vec![];
+                let mut pairs = vec![];
                 for t in &generated {
-                    let r = std::panic::catch_unwind(AssertUnwindSafe(|| {
-                        t.validate(&w.node.blockchain.utxoset, &w.node.blockchain, true)
-                    }));
-                    let code = if gen_panicked {
-                        9
-                    } else {
-                        match r {
-                            Ok(true) => 1u64,
-                            Ok(false) => 0,
-                            Err(_) => 9,
-                        }
-                    };
+                    let code = if gen_panicked { 9 } else { real_verdict(&w.node, t) };
                     verdicts.push(code);
-                    coq_cases.push(format!("({}, {})", abstract_tx(&w, t, &mut int), code));
+                    pairs.push(format!("({}, {})", abstract_tx(&w.node, t, &mut int), code));
                 }
-                summary.count("edit", EDITS[e].0);
+                let env_s = env(&w);
+                let mut block_part = "None".to_string();
+                summary.count("edit", edit.name);
                 summary.count("venue", venue);
-                summary.count("tx_validate_verdict", &format!("{:?}", verdicts));
-                let must_reject = EDITS[e].1;
+                summary.count("world", &format!("gp{}-len{}-stake{}-nft{}-fee{}", plan.gp, plan.len + 1, plan.stake, plan.nft, plan.fee));
+                summary.count("tx_validate_verdict", &format!("{}:{:?}", edit.name, verdicts));
                 let mut accepted = false;
+                let mut block_added = false;
+                let mut block_txs: Option<(u64, Vec<String>, Vec<u64>)> = None;
                 let mut what = String::new();
                 if venue == "pool" {
                     let t = txs[0].clone();
                     let sig = t.signature;
-                    let r = futures_catch(AssertUnwindSafe(
-                        w.node.mempool.add_transaction_if_validates(t, &w.node.blockchain),
-                    ))
-                    .await;
+                    let r = futures_catch(AssertUnwindSafe(w.node.mempool.add_transaction_if_validates(t, &w.node.blockchain))).await;
                     match r {
                         Ok(()) => {
                             accepted = w.node.mempool.transactions.contains_key(&sig);
@@ -362,57 +1282,153 @@ async fn main() {
                         }
                         Err(m) => {
                             what = format!("pool intake panicked: {}", m);
-                            summary.oracle_failure(case_no, &format!("[{}] {}", EDITS[e].0, what), &desc);
+                            summary.oracle_failure(case_no, &format!("[{}] {}", edit.name, what), &desc);
                         }
                     }
                 } else {
-                    let ab = futures_catch(AssertUnwindSafe(attacker_block(&w, &txs, ts, case_no as u64))).await;
+                    let ab = futures_catch(AssertUnwindSafe(attacker_block(&w, &txs, edit.stake_slot, ts, case_no as u64))).await;
                     match ab.unwrap_or(None) {
                         None => {
                             what = "attacker block could not be assembled".to_string();
+                            summary.count("attacker_block", "not-assembled");
                         }
                         Some(b) => {
-                            let hashv = hash(&b.serialize_for_signature());
-                            let _ = hashv;
+                            let carried = txs.iter().all(|t| b.transactions.iter().any(|x| x.signature == t.signature));
+                            // the block's transactions as the model sees them, before the ledger changes
+                            let abs: Vec<String> = b.transactions.iter().map(|t| abstract_tx(&w.node, t, &mut int)).collect();
+                            let mut real: Vec<u64> = vec![];
+                            for t in &b.transactions {
+                                real.push(real_verdict(&w.node, t));
+                            }
+                            block_txs = Some((b.id, abs, real));
                             let r = futures_catch(AssertUnwindSafe(w.node.add_block(b.clone()))).await;
                             match r {
                                 Ok(c) => {
-                                    accepted = c == AddClass::OnChain;
+                                    accepted = c == AddClass::OnChain && carried;
+                                    block_added = c == AddClass::OnChain;
                                     what = format!("block result {:?}", c);
                                 }
                                 Err(m) => {
                                     what = format!("add_block panicked: {}", m);
-                                    summary.oracle_failure(case_no, &format!("[{}] {}", EDITS[e].0, what), &desc);
+                                    summary.oracle_failure(case_no, &format!("[{}] {}", edit.name, what), &desc);
                                 }
                             }
                         }
                     }
                 }
-                summary.count("outcome", &format!("{}:{}:{}", EDITS[e].0, venue, if accepted { "accepted" } else { "rejected" }));
-                if must_reject && accepted {
-                    let id = format!("{}-{}", EDITS[e].0, venue);
-                    summary.known_hit(&id, case_no, &format!("{} ({}) violates SpendOK but: {}", EDITS[e].0, venue, what));
+                if let Some((id, abs, real)) = block_txs {
+                    // every transaction of the block as judged by the real validate, and the block's fate
+                    for (a, r) in abs.iter().zip(real.iter()) {
+                        pairs.push(format!("({}, {})", a, r));
+                    }
+                    block_part = format!("Some ({}, {}, {})", id, gal::list(&abs), gal::boolean(block_added));
                 }
-                if !must_reject && !accepted {
-                    summary.oracle_failure(case_no, &format!("valid transaction not accepted via {}: {}", venue, what), &desc);
+                coq_cases.push(format!("({}, {}, {})", env_s, gal::list(&pairs), block_part));
+                summary.count("outcome", &format!("{}:{}:{}", edit.name, venue, if accepted { "accepted" } else { "rejected" }));
+                match edit.expect {
+                    Reject if accepted => {
+                        let id = match edit.known {
+                            Some(k) => k.to_string(),
+                            None => format!("{}-{}", edit.name, venue),
+                        };
+                        summary.known_hit(&id, case_no, &format!("{} ({}) violates SpendOK but: {}", edit.name, venue, what));
+                    }
+                    Accept if !accepted => {
+                        summary.oracle_failure(case_no, &format!("valid transaction ({}) not accepted via {}: {}", edit.name, venue, what), &desc);
+                    }
+                    _ => {}
                 }
-                if distinct.insert(format!("{}{}{}{}", e, venue, gp, len)) && must_reject {
+                if distinct.insert(format!("{}{}{}", e, venue, wi)) && edit.expect == Reject {
                     summary.nontrivial += 1;
                 }
-                if summary.samples.len() < 4 && e % 5 == 3 {
+                if summary.samples.len() < 4 && e % 13 == 3 {
                     summary.samples.push(desc.clone());
                 }
                 summary.case_descs.push(desc);
                 case_no += 1;
             }
         }
+        if plan.wrapped() {
+            continue;
+        }
+        // ---- correspondence only: random field mutations of valid transactions, and the
+        // scripted overflow cases, judged by the real Transaction::validate at the tip
+        let mut w = fresh_world(&built).await;
+        let ts = w.tip.timestamp + 150_000;
+        let base = bases(&mut w, ts).await;
+        let mut scripted: Vec<(String, Transaction)> = overflow_cases(&w, ts).into_iter().map(|(n, t)| (n.to_string(), t)).collect();
+        scripted.extend(rule_probes(&mut w, ts).await);
+        for k in 0..n_fuzz + scripted.len() {
+            let (label, mut t, tamper) = if k < n_fuzz {
+                let (bname, t0, sk) = rng.pick(&base).clone();
+                let mut t = t0.clone();
+                let mut ops = vec![];
+                for _ in 0..*rng.pick(&[1usize, 1, 1, 2, 2, 3]) {
+                    ops.push(mutate(&w, &mut t, &mut rng));
+                }
+                match rng.below(8) {
+                    0 => {} // signature left as it was
+                    1 => t.sign(&w.victim.1),
+                    _ => t.sign(&sk),
+                }
+                if rng.below(40) == 0 {
+                    t.hash_for_signature = None;
+                }
+                (format!("{}+{}", bname, ops.join("+")), t, rng.below(12))
+            } else {
+                let (name, t) = scripted.remove(0);
+                (name, t, 99)
+            };
+            let had_hash = t.hash_for_signature.is_some();
+            let pk = w.node.pk;
+            let gen_ok = std::panic::catch_unwind(AssertUnwindSafe(|| t.generate(&pk, 0, 0))).is_ok();
+            if !had_hash {
+                t.hash_for_signature = None;
+            }
+            // after generate(): tamper with the cached utxo keys (only reachable by calling
+            // validate() without generate(); exercises the key checks of the BlockStake branch)
+            if !t.from.is_empty() {
+                let i = rng.below(t.from.len() as u64) as usize;
+                match tamper {
+                    0 => t.from[i].utxoset_key = [0; 59],
+                    1 => t.from[i].utxoset_key[57] ^= 1,
+                    2 => {
+                        let j = rng.below(t.from.len() as u64) as usize;
+                        t.from[i].utxoset_key = t.from[j].utxoset_key;
+                    }
+                    _ => {}
+                }
+            }
+            let code = if gen_ok { real_verdict(&w.node, &t) } else { 9 };
+            let mut int = Interner::default();
+            let desc = format!(
+                "{{\"case\":{},\"edit\":\"mutation:{}\",\"venue\":\"validate\",{},\"txs\":[{}],\"verdict\":{}}}",
+                case_no,
+                label,
+                world_desc,
+                tx_desc(&t),
+                code
+            );
+            coq_cases.push(format!("({}, [({}, {})], None)", env(&w), abstract_tx(&w.node, &t, &mut int), code));
+            summary.count("mutation_verdict", &format!("type{}:{}", t.transaction_type as u8, code));
+            if tamper == 99 {
+                summary.count("scripted_verdict", &format!("{}={}", label, code));
+            }
+            if code == 9 {
+                summary.count("validate_panics", &label);
+            }
+            summary.case_descs.push(desc);
+            case_no += 1;
+        }
     }
     summary.evaluations = case_no as u64;
     let header = "From Saito Require Import Base TxValid.\n\
-        Definition check (c : atx * N) : bool := N.eqb (verdict_code (tx_validate (fst c))) (snd c).";
-    // model cases are indexed separately from oracle cases (several txs per case)
-    let files = gal::write_shards(&format!("{}/cases", args.out), "C01", header, "atx * N", &coq_cases, args.shards).unwrap();
+        Definition check (c : env * list (atx * N) * option (N * list atx * bool)) : bool :=\n  \
+        let '(e, l, b) := c in\n  \
+        forallb (fun p => N.eqb (verdict_code (tx_validate e (fst p))) (snd p)) l &&\n  \
+        match b with None => true | Some (id, txs, added) => implb added (block_txs_ok e id txs) end.";
+    let files = gal::write_shards(&format!("{}/cases", args.out), "C01", header, "env * list (atx * N) * option (N * list atx * bool)", &coq_cases, args.shards).unwrap();
     summary.case_files = files;
-    summary.notes.push(format!("{} Transaction::validate verdicts compared with TxValid.tx_validate", coq_cases.len()));
+    summary.notes.push(format!("{} cases: Transaction::validate verdicts compared with TxValid.tx_validate", coq_cases.len()));
     summary.write(&args.out);
 }
